@@ -52,6 +52,26 @@ def check_norm_inf(rep, pdb, path, key):
     rep.add(key, rule, ok, fn["body"], det, where=loc(fn["body"]))
 
 
+def check_dot(rep, pdb, key):
+    """the sequential dot product (also the reference of C16's threaded one)"""
+    fn = pdb.fn("%s::dot" % V)
+    rule = "dot: size guard, accumulator from zero(), += self[i]*w[i] for i in 0..size"
+    if fn is None:
+        rep.missing(key, rule, "not found")
+    else:
+        ctx = Ctx.for_fn(pdb, fn)
+        es = [e for e in effects(pdb, ctx) if e.kind == "assignop"]
+        ok = len(es) == 1 and NE(N0, LEN(VEC1)) in effective_guards(pdb, fn)
+        if ok:
+            e = es[0]
+            r = for_range(ctx, e.loops[0])
+            i = r[0]
+            acc = ctx.binds.get(e.target[1])
+            ok = e.op == "+=" and e.value in (("op", "*", ("idx", VEC0, i), ("idx", VEC1, i)), ("op", "*", ("idx", VEC1, i), ("idx", VEC0, i))) and \
+                r[1:5] == (num(0), N0, False, False) and acc is not None and is_zero_term(ctx.term(acc.init)) and ctx.term(fn["body"]["expr"]) == e.target
+        rep.add(key, rule, ok, fn["body"], "", where=loc(fn["body"]))
+
+
 def run(rep, pdb, tier):
     n_el = 0
     for fn in pdb.local_fns():
@@ -95,22 +115,7 @@ def run(rep, pdb, tier):
         ok = t is not None and t[0] == "call" and str(t[1]).endswith(("::unwrap", "::expect")) and inner is not None and inner[0] == "call" and str(inner[1]).endswith("::pop") and inner[2] == VEC0
         rep.add("edit/pop", rule, ok, fn["body"], "", where=loc(fn["body"]))
     # ---- dot
-    fn = pdb.fn("%s::dot" % V)
-    rule = "dot: size guard, accumulator from zero(), += self[i]*w[i] for i in 0..size"
-    if fn is None:
-        rep.missing("dot", rule, "not found")
-    else:
-        ctx = Ctx.for_fn(pdb, fn)
-        es = [e for e in effects(pdb, ctx) if e.kind == "assignop"]
-        ok = len(es) == 1 and NE(N0, LEN(VEC1)) in effective_guards(pdb, fn)
-        if ok:
-            e = es[0]
-            r = for_range(ctx, e.loops[0])
-            i = r[0]
-            acc = ctx.binds.get(e.target[1])
-            ok = e.op == "+=" and e.value in (("op", "*", ("idx", VEC0, i), ("idx", VEC1, i)), ("op", "*", ("idx", VEC1, i), ("idx", VEC0, i))) and \
-                r[1:5] == (num(0), N0, False, False) and acc is not None and is_zero_term(ctx.term(acc.init)) and ctx.term(fn["body"]["expr"]) == e.target
-        rep.add("dot", rule, ok, fn["body"], "", where=loc(fn["body"]))
+    check_dot(rep, pdb, "dot")
     # ---- slices
     for name, op, start_off in (("sum_slice", "+=", 0), ("product_slice", "*=", 1)):
         fn = pdb.fn("%s::%s" % (V, name))
